@@ -29,4 +29,4 @@ OBJ=${OBJ# -object }
 "$TOOLS/llvm-cov" show -instr-profile "$SCR/all.profdata" $OBJ /repo/src -show-line-counts-or-regions=false -show-instantiations=false 2>/dev/null \
   | python3 "$ROOT/tools/uncovered.py" > "$ROOT/coverage/uncovered.txt"
 tail -3 "$ROOT/coverage/summary.txt"
-rm -rf "$SCR"; rm -f /repo/default_*.profraw /verif/default_*.profraw   # strays of un-named profiles
+rm -rf "$SCR"; rm -f /repo/default_*.profraw /verif/default_*.profraw /verif/harness/default_*.profraw   # strays of un-named profiles
